@@ -124,6 +124,10 @@ type Subst struct {
 	File string // base name, e.g. "hpack.go" or "http2utils/utils.go"
 	Old  string
 	New  string
+	// offset form (used by the sweep): replace src[Off:Off+Len] when UseOff
+	UseOff bool
+	Off    int
+	Len    int
 }
 
 // Prog is one type-checked tree (the real one or a variant).
@@ -180,6 +184,17 @@ func (b *Base) build(subs []Subst) (*Prog, error) {
 			src := b.Sources[f]
 			for i, s := range subs {
 				if relName(f) == s.File {
+					if s.UseOff {
+						if s.Off < 0 || s.Off+s.Len > len(src) {
+							continue
+						}
+						ns := append([]byte{}, src[:s.Off]...)
+						ns = append(ns, []byte(s.New)...)
+						ns = append(ns, src[s.Off+s.Len:]...)
+						src = ns
+						applied[i] = true
+						continue
+					}
 					if n := bytes.Count(src, []byte(s.Old)); n != 1 {
 						continue
 					}
